@@ -282,7 +282,11 @@ def mutate_schema(rng, schema, members):
         if isinstance(st.get("content"), list):
             st["content"] = st["content"] * rng.choice([2, 50, 2000])
     elif kind == "names":
-        st["__module__"] = rng.choice(["", ".", "..", "nonexistent_module_xyz", "numpy..core", "a b", 3, None, "numpy", "builtins"])
+        st["__module__"] = rng.choice(["", ".", "..", "nonexistent_module_xyz", "numpy..core", "a b", 3, None, "numpy", "builtins",
+                                       # dotted names below installed packages whose import has side effects
+                                       "numpy.conftest.fixtures", "numpy.linalg.tests.test_linalg.data", "numpy.f2py.crackfortran.x",
+                                       "sklearn.experimental.enable_halving_search_cv.x", "scipy.conftest.x", "sklearn.conftest.x",
+                                       "numpy.testing.print_coercion_tables.x", "scipy.special.tests.test_basic.x"])
         st["__class__"] = rng.choice(["", "__class__", "no_such_attr", "a.b", 3, None, "ndarray", "object"])
     elif kind == "swap-trusted-class":
         # another name the same loader trusts by default: passes the audit, reaches construct with a class the data was not made for
@@ -313,7 +317,7 @@ def targeted(rng, bases, per_base_limit):
         combos = []
         for st, path in states:
             ext = st["file"].rsplit(".", 1)[-1]
-            kinds = NPZ_KINDS if ext == "npz" else NPY_KINDS if ext == "npy" else []
+            kinds = ([None] + NPZ_KINDS) if ext == "npz" else ([None] + NPY_KINDS) if ext == "npy" else []
             swaps = [None] + TRUSTED_BY_LOADER().get(str(st.get("__loader__")), [])
             for k in kinds:
                 for sw in swaps:
@@ -322,8 +326,11 @@ def targeted(rng, bases, per_base_limit):
         for path, fname, ext, k, sw in combos[:per_base_limit]:
             s2 = copy.deepcopy(schema)
             m2 = dict(members)
+            if k is None and not sw:
+                continue
             try:
-                m2[fname], _ = (npz_semantic if ext == "npz" else npy_semantic)(rng, members[fname], k)
+                if k is not None:                   # None: the member is left alone, only the class is renamed
+                    m2[fname], _ = (npz_semantic if ext == "npz" else npy_semantic)(rng, members[fname], k)
             except Exception:
                 continue
             node = s2
@@ -332,7 +339,7 @@ def targeted(rng, bases, per_base_limit):
             if sw:
                 node["__module__"], _, node["__class__"] = sw.rpartition(".")
             try:
-                out.append((ioarch.make_zip(s2, m2), dict(base=name, mutations=[f"members:{ext}-semantic:{k}"] + ([f"schema:swap-trusted-class:{sw}"] if sw else []))))
+                out.append((ioarch.make_zip(s2, m2), dict(base=name, mutations=([f"members:{ext}-semantic:{k}"] if k else []) + ([f"schema:swap-trusted-class:{sw}"] if sw else []))))
             except Exception:
                 pass
     return out
